@@ -138,6 +138,15 @@ def operand_matrix():
         out.append((f"vexpr @ {oname}", "S", ["matmul", _xe, o], mm))
         out.append((f"{oname} @ vexpr", "S", ["matmul", o, _xe], mm))
         out.append((f"vexpr.dot({oname})", "S", ["dot", _xe, o], mm))
+    # element access with negative and mixed-sign indices on every matrix / vector kind (2x3 and 3x2 shapes: rows != cols)
+    for mname, M in (("matvar", _A), ("mexpr", _Ae), ("mexpr.T", ["MT", _Ae]), ("matvar.T", ["T", _A]), ("sub", ["sub", _Q, 0, 2, 0, 3]),
+                     ("mexpr-of-sub", ["mbin", "*", ["sub", _Q, 0, 2, 0, 3], ["raw", 2.0, "float"]]), ("symmetric", _S)):
+        rows_, cols_ = (3, 2) if mname in ("mexpr.T", "matvar.T") else ((3, 3) if mname == "symmetric" else (2, 3))
+        for (i_, j_) in ((0, -1), (-1, 0), (-1, -1), (1, -2), (-2, 1), (0, -cols_), (-rows_, cols_ - 1)):
+            out.append((f"index {mname}[{'neg' if i_ < 0 else 'pos'},{'neg' if j_ < 0 else 'pos'}]", "S", ["mel", M, i_, j_], False))
+    for vname, Vn in (("vecvar", _x), ("vexpr", _xe), ("slice", ["slice", _v, 1, 4, None]), ("row-of-mexpr", ["row", _Ae, 1]), ("col-of-matvar", ["col", _A, 1])):
+        for i_ in (-1, -2, -(3 if vname != "col-of-matvar" else 2)):
+            out.append((f"index {vname}[neg]", "S", ["el", Vn, i_], False))
     # coefficient data of tiny uniform scale (exact power of two; observations are scaled back before the comparison)
     t_ = 2.0 ** -30
     tiny3 = ["arr", [1.5 * t_, -2.0 * t_, 0.25 * t_]]
